@@ -151,3 +151,82 @@ Proof.
 Qed.
 
 Print Assumptions C13_translated_bucket_header_complete_or_readers_error.
+
+(* the positioned-read helpers of the sig-exists readers and of the CAR section reader (readFullAt of bucketteer/read.go,
+   deprecated/bucketteer/read.go and storage.go — the repairs 19fd07a and f06ca95 — and readUint64Le), translated likewise:
+   for EVERY reader (any byte count, any error value, io.EOF with a complete read included)
+     - readFullAt succeeds exactly when the read was complete; on a short read its error is the reader's, or
+       io.ErrUnexpectedEOF when the reader gave none — never nil;
+     - readUint64Le returns the little-endian value of the 8 bytes read or that error — never a value made from a
+       partly filled buffer.
+   The three packages' readFullAt translate to the same term (checked by reflexivity below), so one proof serves all. *)
+Require YF.Generated.GoLiteRdC05 YF.Generated.GoLiteRdLC05 YF.Generated.GoLiteRdMain YF.GoLiteRd_ReadFull.
+
+Lemma C13_readFullAt_same_in_all_packages :
+  GoLiteRdLC05.fn_readFullAt = GoLiteRdC05.fn_readFullAt /\ GoLiteRdMain.fn_readFullAt = GoLiteRdC05.fn_readFullAt /\
+  GoLiteRdLC05.fn_readUint64Le = GoLiteRdC05.fn_readUint64Le.
+Proof. repeat split; reflexivity. Qed.
+
+Theorem C13_translated_readFullAt_complete_or_error :
+  forall prog, In prog [GoLiteRdC05.prog; GoLiteRdLC05.prog; GoLiteRdMain.prog] ->
+  forall (rd : Z -> Z -> list Z * GoLite.val), (forall off len, GoLiteRd_ReadFull.is_err (snd (rd off len))) ->
+  forall fuel rdv (buf : list Z) (off : Z),
+  GoLite.call prog (GoLiteRd_ReadFull.ext_ra rd) fuel "readFullAt"%string [rdv; GoLite.VInts buf; GoLite.VInt off] =
+  let '(bs, e) := rd off (GoLite.zlen buf) in
+  if (GoLite.zlen bs =? GoLite.zlen buf)%Z
+  then GoLite.RRet (GoLite.VTuple [GoLite.VNil; GoLite.VInts (GoLite.blit buf O bs)])
+  else GoLite.RRet (GoLite.VTuple [GoLiteRd_ReadFull.short_err e; GoLite.VInts (GoLite.blit buf O bs)]).
+Proof.
+  intros prog [<-|[<-|[<-|[]]]] rd Hrd.
+  - exact (GoLiteRd_ReadFull.readFullAt_spec GoLiteRdC05.prog GoLiteRdC05.prog_readFullAt rd Hrd).
+  - exact (GoLiteRd_ReadFull.readFullAt_spec GoLiteRdLC05.prog GoLiteRdLC05.prog_readFullAt rd Hrd).
+  - exact (GoLiteRd_ReadFull.readFullAt_spec GoLiteRdMain.prog GoLiteRdMain.prog_readFullAt rd Hrd).
+Qed.
+
+Theorem C13_translated_readFullAt_short_read_is_never_a_success :
+  forall prog, In prog [GoLiteRdC05.prog; GoLiteRdLC05.prog; GoLiteRdMain.prog] ->
+  forall (rd : Z -> Z -> list Z * GoLite.val), (forall off len, GoLiteRd_ReadFull.is_err (snd (rd off len))) ->
+  forall fuel rdv (buf : list Z) (off : Z),
+  (exists out, GoLite.call prog (GoLiteRd_ReadFull.ext_ra rd) fuel "readFullAt"%string [rdv; GoLite.VInts buf; GoLite.VInt off]
+               = GoLite.RRet (GoLite.VTuple [GoLite.VNil; out])) <->
+  GoLite.zlen (fst (rd off (GoLite.zlen buf))) = GoLite.zlen buf.
+Proof.
+  intros prog [<-|[<-|[<-|[]]]] rd Hrd.
+  - exact (GoLiteRd_ReadFull.readFullAt_success_iff_complete GoLiteRdC05.prog GoLiteRdC05.prog_readFullAt rd Hrd).
+  - exact (GoLiteRd_ReadFull.readFullAt_success_iff_complete GoLiteRdLC05.prog GoLiteRdLC05.prog_readFullAt rd Hrd).
+  - exact (GoLiteRd_ReadFull.readFullAt_success_iff_complete GoLiteRdMain.prog GoLiteRdMain.prog_readFullAt rd Hrd).
+Qed.
+
+Theorem C13_translated_readUint64Le_value_or_error :
+  forall prog, In prog [GoLiteRdC05.prog; GoLiteRdLC05.prog] ->
+  forall (rd : Z -> Z -> list Z * GoLite.val), (forall off len, GoLiteRd_ReadFull.is_err (snd (rd off len))) ->
+  forall fuel rdv (pos : Z), 1 <= fuel ->
+  GoLite.call prog (GoLiteRd_ReadFull.ext_ra rd) fuel "readUint64Le"%string [rdv; GoLite.VInt pos] =
+  let '(bs, e) := rd pos 8%Z in
+  if (GoLite.zlen bs =? 8)%Z
+  then GoLite.RRet (GoLite.VTuple [GoLite.VInt (GoLite.le_value bs); GoLite.VNil])
+  else GoLite.RRet (GoLite.VTuple [GoLite.VInt 0%Z; GoLiteRd_ReadFull.short_err e]).
+Proof.
+  intros prog [<-|[<-|[]]] rd Hrd.
+  - exact (GoLiteRd_ReadFull.readUint64Le_spec GoLiteRdC05.prog GoLiteRdC05.prog_readFullAt GoLiteRdC05.prog_readUint64Le rd Hrd).
+  - exact (GoLiteRd_ReadFull.readUint64Le_spec GoLiteRdLC05.prog GoLiteRdLC05.prog_readFullAt GoLiteRdLC05.prog_readUint64Le rd Hrd).
+Qed.
+
+(* the translated helpers RUN: a complete read that comes with io.EOF is a success; 7 of 8 bytes with a nil error is
+   io.ErrUnexpectedEOF; 7 of 8 bytes with io.EOF is io.EOF *)
+Example C13_translated_read_helpers_run :
+  let full := fun (_ _ : Z) => ([1; 2; 3; 4; 5; 6; 7; 8]%Z, GoLite.VErr "io.EOF"%string) in
+  let short_nil := fun (_ _ : Z) => ([1; 2; 3; 4; 5; 6; 7]%Z, GoLite.VNil) in
+  let short_eof := fun (_ _ : Z) => ([1; 2; 3; 4; 5; 6; 7]%Z, GoLite.VErr "io.EOF"%string) in
+  GoLite.call GoLiteRdC05.prog (GoLiteRd_ReadFull.ext_ra full) 1 "readUint64Le"%string [GoLite.VNil; GoLite.VInt 40%Z]
+    = GoLite.RRet (GoLite.VTuple [GoLite.VInt 578437695752307201%Z; GoLite.VNil]) /\
+  GoLite.call GoLiteRdC05.prog (GoLiteRd_ReadFull.ext_ra short_nil) 1 "readUint64Le"%string [GoLite.VNil; GoLite.VInt 40%Z]
+    = GoLite.RRet (GoLite.VTuple [GoLite.VInt 0%Z; GoLite.VErr "io.ErrUnexpectedEOF"%string]) /\
+  GoLite.call GoLiteRdMain.prog (GoLiteRd_ReadFull.ext_ra short_eof) 0 "readFullAt"%string
+      [GoLite.VNil; GoLite.VInts [0; 0; 0; 0; 0; 0; 0; 0]%Z; GoLite.VInt 40%Z]
+    = GoLite.RRet (GoLite.VTuple [GoLite.VErr "io.EOF"%string; GoLite.VInts [1; 2; 3; 4; 5; 6; 7; 0]%Z]).
+Proof. vm_compute. repeat split; reflexivity. Qed.
+
+Print Assumptions C13_translated_readFullAt_complete_or_error.
+Print Assumptions C13_translated_readFullAt_short_read_is_never_a_success.
+Print Assumptions C13_translated_readUint64Le_value_or_error.
